@@ -217,6 +217,27 @@ def h_groups_slg(E, interior):
     return [list(t) for t in tags]
 
 
+def h_singleton_groups(E, n):
+    """ordered list with one subgrader per answer and a grouping that puts exactly one box in each group, in any order: box j is graded by subgrader
+    and answer number grouping[j]"""
+    from mitxgraders import ListGrader
+    perms = list(itertools.permutations(range(1, n + 1)))
+    grouping = list(E.choice('grouping', perms))
+    exps = ['e%d' % i for i in range(n)]
+    stus = ['s%d' % j for j in range(n)]
+    T = _table(E, exps, stus, True)
+    TG = make_table_grader(T)
+    g = ListGrader(answers=list(exps), subgraders=[TG() for _ in range(n)], ordered=True, grouping=grouping)
+    r = g(None, list(stus))
+    il = r['input_list']
+    tags = [_tag(ent) for ent in il]
+    E.check('reported-at-input-position', len(il) == n and all(tags[j][1] == stus[j] for j in range(n)))
+    E.check('ordered-positional', [t[0] for t in tags] == [exps[grouping[j] - 1] for j in range(n)])
+    if all(t in T for t in tags):
+        E.check('entry-credit-is-subgrader-credit', sand(*[near_eq(il[j]['grade_decimal'], T[tags[j]]) for j in range(n)]))
+    return [list(t) for t in tags]
+
+
 def h_palette4(E, ordered_rows):
     """4 inputs, credits from the palette {0, 1/2, 1} (symbolic integers /2): the smallest size at which a slip in the assignment solver's
     step 6 shows; only the FIRST `ordered_rows` rows are symbolic to keep the path count bounded, the rest are a fixed generic pattern"""
@@ -266,6 +287,8 @@ def harnesses(tier):
         add(h_multi3, 'multi3', dict(ties=tp), '3 answer lists, 2 inputs, credits in (0,1)')
     for layout in ('1122', '1212'):
         add(h_nested, 'nested', dict(outer=False, inner=True, interior=True, layout=layout), '2 groups x 2 inputs, credits in (0,1)')
+    for n in (2, 3):
+        add(h_singleton_groups, 'singleton_groups', dict(n=n), 'every permutation as a grouping of one box per group, credits in (0,1)')
     for layout in ('2211', '2121', '1221'):
         add(h_nested, 'nested', dict(outer=True, inner=True, interior=True, layout=layout), '2 groups x 2 inputs, group numbers not in page order, credits in (0,1)')
     add(h_nested, 'nested', dict(outer=True, inner=False, interior=True, layout='1221'), '2 groups x 2 inputs, credits in (0,1)')
